@@ -39,6 +39,12 @@ def check(ctx):
         return "".join("`define L%d `L%d\n" % (j, j + 1) for j in range(n)) + "`define L%d %s\nx = `L0 ;\n" % (n, leaf)
     jobs += [("pp", chain(41, "8'd1")), ("sv", "module m;\n" + chain(41, "8'd2").replace("x = `L0 ;", "wire [7:0] x = `L0 ;") + "endmodule\n"),
              ("pps", chain(60, "leaf")), ("pp", chain(41, "8'd3"))]
+    # deeply nested brackets, every job a different text (and one that is rejected): what comes back belongs to the text handed in
+    def deep(k, v, close=None):
+        return "module d%d; wire w; assign w = %s%d%s; endmodule\n" % (k, "(" * k, v, ")" * (k if close is None else close))
+    jobs += [("sv", deep(14, 1)), ("sv", deep(15, 2)), ("sv", deep(17, 3)), ("sv", deep(20, 4)), ("sv", deep(16, 5, 15)),
+             ("sv", "module e; wire [7:0] v; assign v = {{{{{{{{{{{{{{8'd1}}}}}}}}}}}}}}; endmodule\n"),
+             ("sv", "module f; wire v; assign v = a[b[c[d[e[f[g[h[i[j[k[l[m[n[0]]]]]]]]]]]]]]; endmodule\n")]
     jobs += r.sample(pool, 6 if q else 60)
     for _ in range(3 if q else 30):
         g = ppgen.Gen(r, includes=False)
